@@ -330,6 +330,11 @@ func (f *Func) reachTarget(
 ) (map[interface{}]reflect.Value, error) {
 	log.Trace("reachTarget", "target", target)
 
+	// Track the targets currently being reached so that a path through any
+	// of them is detected as a dependency cycle rather than recursing forever.
+	state.Reaching[graph.VertexID(target)] = struct{}{}
+	defer delete(state.Reaching, graph.VertexID(target))
+
 	// argMap will store all the values that this target depends on.
 	argMap := map[interface{}]reflect.Value{}
 
@@ -406,9 +411,10 @@ func (f *Func) reachTarget(
 			input = paths[i][1]
 		}
 
-		// If the path contains ourself, then this target is unsatisfied.
+		// If the path contains ourself or any target that is waiting for us,
+		// then this target is unsatisfied.
 		for _, v := range paths[i] {
-			if v == target {
+			if _, ok := state.Reaching[graph.VertexID(v)]; ok {
 				valueable, ok := current.(valueConverter)
 				if !ok {
 					// This shouldn't be possible
@@ -625,6 +631,9 @@ type callState struct {
 
 	// TODO
 	InputSet map[interface{}]graph.Vertex
+
+	// Reaching is the set of targets with a reachTarget call in progress.
+	Reaching map[interface{}]struct{}
 }
 
 func newCallState() *callState {
@@ -632,5 +641,6 @@ func newCallState() *callState {
 		NamedValue: map[string]reflect.Value{},
 		TypedValue: map[reflect.Type]reflect.Value{},
 		InputSet:   map[interface{}]graph.Vertex{},
+		Reaching:   map[interface{}]struct{}{},
 	}
 }
